@@ -35,6 +35,9 @@ type soupCase struct {
 	Actions []soupAction `json:"actions,omitempty"`
 	// NilIO (C10 only): the CPU has no I/O device
 	NilIO bool `json:"nil_io,omitempty"`
+	// Handlers (C10 only): bit 0 - a RETN handler is registered on the original, bit 1 - a RETI handler; a CPU rebuilt
+	// from the public state gets the opposite registration (observers are not state)
+	Handlers int `json:"handlers,omitempty"`
 }
 
 // modelLen asks the model how many bytes the instruction at the head of b has.
